@@ -160,7 +160,7 @@ def _c2s_sig(t, bad, l):
 def run(ctx):
     # 1. the specification satisfies the property (exhaustive within the constants)
     ctx.mc("httpm", "HeaderMap", "MC_HeaderMap.cfg", timeout=ctx.pick(900, 3000),
-           overrides=ctx.pick({"LineFormats": "{1, 3}", "ContFormats": "{1, 3}", "MaxCVals": 1}, {"ValueSel": 2, "MaxValLen": 5}),
+           overrides=ctx.pick({"LineFormats": "{1, 3}", "ContFormats": "{1, 3}", "MaxCVals": 1}, {}),   # thorough: the cfg as written (13 574 states)
            required_actions=["Add", "Set", "Del", "Get", "GetList", "In", "Iter", "ItemsOp", "Pop", "Copy", "CAdd", "CSet",
                              "CDel", "CGet", "ParseLine", "RoundTrip"])
     # 2. spec -> code: every path up to L
